@@ -100,7 +100,7 @@ Definition heap_one (p : prog) (cs_s : list xcode) (mcs : option (list xcode)) (
         match first_violation st with
         | Some why => Some (Some ("class=heap-invariant args=" ++ show (sL sZ args) ++ " at boundary " ++ n_to_string (boundaries st) ++ ": " ++ why), 0%N, 0, 0)
         | None =>
-            if blocks >? peak_in_use st + 2
+            if blocks >? peak_in_use st + 1
             then Some (Some ("class=heap-footprint args=" ++ show (sL sZ args) ++ " frontier " ++ z_to_string blocks ++ " blocks, peak in use " ++ z_to_string (peak_in_use st)), 0%N, 0, 0)
             else Some (None, boundaries st, peak_in_use st, blocks)
         end in
